@@ -95,7 +95,7 @@ PROPS = {
     ),
     'C03': dict(
         title='concurrent hash set/map: linearizable insert-if-absent, one winner per key',
-        quick=[mc('mc_hash', 'all', 'sc', P=2, E=1, budget=200), mc('mc_hash', '0,1,3,4,8,9', 'tso', P=1, D=1, E=0, budget=100)],
+        quick=[mc('mc_hash', 'all', 'sc', P=2, E=1, budget=200), mc('mc_hash', '0,1,3,4,8,9,10,11', 'tso', P=1, D=1, E=0, budget=150)],
         thorough=[mc('mc_hash', 'all', 'sc', P=3, E=1, budget=400), mc('mc_hash', 'all', 'tso', P=2, D=1, E=0, budget=400)],
         oracle='per key: exactly one successful insertion, all calls return the same element address, lookups starting after an insertion returned hit (logical stamps), elements fully constructed when visible (value check + HB race detector over the value array), full fixed table rejects without consuming a move-only argument, contents/size/iteration at quiescence',
         assumptions=['harness hash function places keys in chosen groups with chosen 7-bit tags (collisions, equal tags, group wrapping the table end)'],
@@ -140,8 +140,8 @@ PROPS = {
     ),
     'C05': dict(
         title='anyflow: a run equals sequential demand-driven evaluation; each vertex runs at most once',
-        quick=[mc('mc_anyflow', '0-20,23-24', 'sc', P=2, budget=300), mc('mc_anyflow', '21', 'sc', P=0, budget=200), mc('mc_anyflow', '1-14,23-24', 'tso', P=1, D=1, budget=300), mc('mc_anyflow', '27-28', 'sc', P=1, budget=150)],
-        thorough=[mc('mc_anyflow', '0-20,23-25', 'sc', P=3, budget=400), mc('mc_anyflow', '1-14,23-24', 'tso', P=2, D=1, budget=400), mc('mc_anyflow', '21', 'sc', P=0, budget=400), mc('mc_anyflow', '22', 'sc', P=1, budget=400), mc('mc_anyflow', '26-28', 'sc', P=2, budget=400)],
+        quick=[mc('mc_anyflow', '0-20,23-24,29-31', 'sc', P=2, budget=400), mc('mc_anyflow', '21', 'sc', P=0, budget=200), mc('mc_anyflow', '1-14,23-24,30-31', 'tso', P=1, D=1, budget=300), mc('mc_anyflow', '27-28', 'sc', P=1, budget=150)],
+        thorough=[mc('mc_anyflow', '0-20,23-25,29-31', 'sc', P=3, budget=400), mc('mc_anyflow', '1-14,23-24', 'tso', P=2, D=1, budget=400), mc('mc_anyflow', '21', 'sc', P=0, budget=400), mc('mc_anyflow', '22', 'sc', P=1, budget=400), mc('mc_anyflow', '26-28', 'sc', P=2, budget=400)],
         oracle='sequential demand-driven reference interpreter written in the harness: closure finished, success/failure and error code, every target value, every data (ready/empty/value), the exact set of processors run (each at most once, only needed ones), the inputs each processor saw, dependency verdict (condition ready; target ready iff condition holds) at invocation, started==finished for every vertex when wait() returns, second run after reset(); HB race detector on data payload and dependency verdicts; deadlock detector',
         assumptions=['curated graphs (diamond, on/unless, punch-through, essential, trivial, nested conditions, missing/empty/injected inputs, failing vertex, target subsets) under an inplace executor, a thread-per-vertex executor and ThreadPoolGraphExecutor with 1-2 workers; plus the generated family: all dependency shapes of a 3-vertex graph over a 4-name pool (141120 structures x 4 input valuations)', 'the Closure object outlives every external emit into the graph (an emit into a graph whose closure was destroyed is outside the harness)', 'GraphDependency::_established is not under the race detector: two threads may store the same value true to it without ordering (benign same-value write; reported in DESIGN.md)'],
     ),
